@@ -49,6 +49,9 @@ def run_one(spec, props, want_sample=False, extra=None):
 
         mod = importlib.import_module("dst.drivers." + driver)
         res.update(mod.run(scen, spec, props))
+        if want_sample:
+            res["sample"] = {"scenario": scen, "driver": driver,
+                             "driver_args": {k: spec[k] for k in spec if k not in ("root", "profile", "scenario", "driver")}}
         res["wall"] = time.time() - t0
         return res
     hist = harness.run_scenario(scen)
